@@ -139,7 +139,7 @@ def stream_replay(ctx, module, cfg, overrides, replayer, label="s2c", nontrivial
     cfgp = make_cfg(os.path.join(spec_dir, cfg), overrides or {}, ctx.scratch,
                     "%s_%s_%s" % (module, label, os.path.basename(cfg)))
     dump = os.path.join(ctx.scratch, "%s_%s_%d" % (module, label, len(os.listdir(ctx.scratch))))
-    r = tlc.run(spec_dir, module, cfgp, timeout=timeout or ctx.pick(300, 1500), dump=dump)
+    r = tlc.run(spec_dir, module, cfgp, timeout=timeout or ctx.pick(900, 3000), dump=dump)
     if not r.ok:
         raise Machinery("generation spec reported %s" % r.violation)
     fn = dump + ".dump"
@@ -232,7 +232,7 @@ def sim_replay(ctx, module, cfg, num, depth, overrides, replayer, label="s2c-sim
                     "%s_%s_%s" % (module, label, os.path.basename(cfg)))
     d = os.path.join(ctx.scratch, "sim_%s_%d" % (module, len(os.listdir(ctx.scratch))))
     os.makedirs(d)
-    r = tlc.run(spec_dir, module, cfgp, timeout=timeout or ctx.pick(300, 1500), workers=1,
+    r = tlc.run(spec_dir, module, cfgp, timeout=timeout or ctx.pick(900, 3000), workers=1,
                 simulate={"num": num, "file": os.path.join(d, "tr")}, depth=depth, seed=ctx.seed + 1)
     if not r.ok:
         raise Machinery("simulation spec reported %s" % r.violation)
